@@ -10,7 +10,7 @@ from vlib.core import Failure
 
 PROP = "C04"
 RULE = (
-    "a case is (pool kind direct | forwarding proxy | CONNECT tunnel, placement of the policy request | pool/manager level, "
+    "a case is (pool kind direct | forwarding proxy | CONNECT tunnel (null TLS), placement of the policy request | pool/manager level, "
     "policy = False | int | None | Retry(total, connect, read, status, other, allowed_methods, status_forcelist, "
     "raise_on_status, respect_retry_after_header, backoff_factor, backoff_max, backoff_jitter), method, per-attempt outcome "
     "script of <= 5 outcomes from {connect refused, connect timeout, name resolution error, read timeout, reset, EOF, "
@@ -27,8 +27,8 @@ ASSUMPTIONS = [
 ]
 EXHAUSTIVE = {"quick": False, "thorough": True}
 
-FAULTS = ["refused", "ctimeout", "gaierror", "rtimeout", "rreset", "eof", "garbage", "short_eof", "sreset", "rssl"]
-CATEGORY = {"refused": "connect", "ctimeout": "connect", "gaierror": "connect", "rtimeout": "read", "rreset": "read", "eof": "read", "garbage": "read", "short_eof": "read", "sreset": "read", "rssl": "other"}
+FAULTS = ["refused", "ctimeout", "gaierror", "rtimeout", "rreset", "eof", "garbage", "short_eof", "sreset", "rssl", "tlsfail", "connect_refused"]
+CATEGORY = {"refused": "connect", "ctimeout": "connect", "gaierror": "connect", "rtimeout": "read", "rreset": "read", "eof": "read", "garbage": "read", "short_eof": "read", "sreset": "read", "rssl": "other", "tlsfail": "other", "connect_refused": "other"}
 RESPS = [{"s": 200}, {"s": 500}, {"s": 503}, {"s": 429, "ra": "2"}, {"s": 503, "ra": "7"}, {"s": 413, "ra": "1"}, {"s": 500, "ra": "3"}, {"s": 429, "ra": "0"}, {"s": 404, "ra": "5"}]
 OUTCOMES = FAULTS + RESPS
 METHODS = ["GET", "POST", "PUT", "DELETE", "PATCH"]
@@ -101,7 +101,7 @@ def _outcome_to_script(o):
 
 
 def _validate(case):
-    if case.get("kind") != "retry" or case.get("pool") not in ("direct", "fwd") or case.get("place") not in ("request", "pool"):
+    if case.get("kind") != "retry" or case.get("pool") not in ("direct", "fwd", "tunnel") or case.get("place") not in ("request", "pool"):
         raise core.InvalidCase
     if case.get("method") not in METHODS or not isinstance(case.get("script"), list) or len(case["script"]) > 6:
         raise core.InvalidCase
@@ -141,6 +141,7 @@ def wrapped_types(kind, proxied):
         "refused": (ue.NewConnectionError,), "ctimeout": (ue.ConnectTimeoutError,), "gaierror": (ue.NameResolutionError,),
         "rtimeout": (ue.ReadTimeoutError,), "rreset": (ue.ProtocolError,), "eof": (ue.ProtocolError,), "garbage": (ue.ProtocolError,),
         "short_eof": (ue.ProtocolError,), "sreset": (ue.ProtocolError,), "rssl": (ue.SSLError,),
+        "tlsfail": (ue.SSLError,), "connect_refused": (ue.ProxyError,),
     }[kind]
     if proxied and kind in ("refused", "ctimeout", "gaierror"):
         return (ue.ProxyError,)  # could not reach the proxy
@@ -155,7 +156,7 @@ def run_case(case) -> list[Failure]:
     spec = case["retries"]
     eff = effective(spec)
     method = case["method"]
-    proxied = case["pool"] == "fwd"
+    proxied = case["pool"] in ("fwd", "tunnel")
     script = [_outcome_to_script(o) for o in case["script"]]
     ref = [None]
     clock = _Clock(ref)
@@ -170,7 +171,13 @@ def run_case(case) -> list[Failure]:
         kw_pool = {"retries": retries} if case["place"] == "pool" else {}
         kw_req = {"retries": retries} if case["place"] == "request" else {}
         body = b"x=1" if method in ("POST", "PUT", "PATCH") else None
-        if proxied:
+        if case["pool"] == "tunnel":
+            from vlib import nulltls
+
+            nulltls.reset()
+            obj = urllib3.ProxyManager("http://proxy.test:3128", ssl_context=nulltls.NullTLSContext("c04"), **kw_pool)
+            url = "https://a.test/x"
+        elif proxied:
             obj = urllib3.ProxyManager("http://proxy.test:3128", **kw_pool)
             url = "http://a.test/x"
         else:
@@ -333,7 +340,7 @@ SO = [None, 0, 1, 2]
 def enum_cases(tier):
     """Bounded-exhaustive: budget grid x method class x all outcome sequences of length <= L."""
     L = 2 if tier == "quick" else 3
-    outs = FAULTS + RESPS[:6] if tier != "quick" else ["refused", "ctimeout", "rtimeout", "rreset", "eof", "garbage", "sreset", "rssl", {"s": 200}, {"s": 503}, {"s": 429, "ra": "2"}, {"s": 500, "ra": "3"}]
+    outs = FAULTS + RESPS[:6] if tier != "quick" else ["refused", "ctimeout", "rtimeout", "rreset", "eof", "garbage", "sreset", "rssl", "tlsfail", "connect_refused", {"s": 200}, {"s": 503}, {"s": 429, "ra": "2"}, {"s": 500, "ra": "3"}]
     grids = []
     for total, connect, read in itertools.product(TOTALS, CR, CR):
         grids.append({"t": "retry", "total": total, "connect": connect, "read": read})
@@ -344,7 +351,8 @@ def enum_cases(tier):
     for bf, bm, jit in itertools.product((0.5, 100), (0, 0.5, 1, 120), (0.0, 0.3)):
         grids.append({"t": "retry", "total": 3, "bf": bf, "bm": bm, "jit": jit, "fl": [503]})
     grids += [{"t": "false"}, {"t": "none"}, {"t": "int", "v": 0}, {"t": "int", "v": 1}, {"t": "int", "v": 2}]
-    variants = [("GET", "default", "direct", "request"), ("POST", "default", "direct", "request"), ("POST", "none", "fwd", "pool"), ("PUT", "post", "direct", "pool"), ("POST", "post", "fwd", "request")]
+    variants = [("GET", "default", "direct", "request"), ("POST", "default", "direct", "request"), ("POST", "none", "fwd", "pool"), ("PUT", "post", "direct", "pool"), ("POST", "post", "fwd", "request"),
+                ("GET", "default", "tunnel", "request"), ("POST", "default", "tunnel", "pool")]
     if tier != "quick":
         variants += [("DELETE", "default", "fwd", "request"), ("PATCH", "default", "direct", "pool"), ("GET", "none", "fwd", "pool")]
     for g in grids:
@@ -359,6 +367,8 @@ def enum_cases(tier):
                 for seq in itertools.product(outs, repeat=k):
                     if any(isinstance(o, dict) and o["s"] == 200 for o in seq[:-1]):
                         continue  # nothing follows a 200
+                    if pool != "tunnel" and any(o in ("tlsfail", "connect_refused") for o in seq):
+                        continue
                     yield {"kind": "retry", "pool": pool, "place": place, "retries": spec, "method": method, "script": list(seq)}
 
 
@@ -375,7 +385,7 @@ def _hyp():
     spec = st.one_of(retry, retry, retry, st.just({"t": "false"}), st.just({"t": "none"}), st.builds(lambda v: {"t": "int", "v": v}, st.integers(0, 4)))
     outcome = st.one_of(st.sampled_from(FAULTS), st.sampled_from(FAULTS), st.sampled_from(RESPS))
     return st.fixed_dictionaries({
-        "kind": st.just("retry"), "pool": st.sampled_from(["direct", "direct", "fwd"]), "place": st.sampled_from(["request", "pool"]),
+        "kind": st.just("retry"), "pool": st.sampled_from(["direct", "direct", "fwd", "tunnel"]), "place": st.sampled_from(["request", "pool"]),
         "retries": spec, "method": st.sampled_from(METHODS), "script": st.lists(outcome, min_size=1, max_size=5),
     })
 
